@@ -115,8 +115,8 @@ def check_structure(res, pid, where, o, expected, src):
         attrs = [norm(a) for a in t["attrs"]]
         if '#[serde(rename_all="snake_case")]' not in attrs:
             bad("type %s lacks serde(rename_all = snake_case): %s" % (tname, attrs))
-        der = [a for a in attrs if a.startswith("#[derive(")]
-        if not der or "sylvia::serde::Serialize" not in der[0] or "sylvia::serde::Deserialize" not in der[0] or "sylvia::schemars::JsonSchema" not in der[0]:
+        der = [" ".join(a for a in attrs if a.startswith("#[derive("))]   # one derive attribute or several
+        if not der[0] or "sylvia::serde::Serialize" not in der[0] or "sylvia::serde::Deserialize" not in der[0] or "sylvia::schemars::JsonSchema" not in der[0]:
             bad("type %s lacks the serde/schemars derives: %s" % (tname, der))
         if any(a.startswith("#[serde(") and ("untagged" in a or "tag=" in a or "rename=" in a) for a in attrs):
             bad("type %s carries a representation-changing serde attribute: %s" % (tname, attrs))
